@@ -13,10 +13,47 @@ package main
 import (
 	"fmt"
 	"os"
+	"path/filepath"
 	"strconv"
+	"sync"
+	"time"
 
 	_ "verifharness/internal/quiet"
 )
+
+// statsPath: side file of an exec run (<impl-out>.stats): what the uncontrolled concurrent ops actually exercised
+// (CA calls, clears, tasks run inside PushDelayed, ...); read by the check for the evidence counters, never compared.
+var (
+	statsPath string
+	statsMu   sync.Mutex
+)
+
+func statf(format string, a ...any) {
+	if statsPath == "" {
+		return
+	}
+	statsMu.Lock()
+	defer statsMu.Unlock()
+	f, err := os.OpenFile(statsPath, os.O_APPEND|os.O_CREATE|os.O_WRONLY, 0o644)
+	if err != nil {
+		return
+	}
+	defer f.Close()
+	fmt.Fprintf(f, format+"\n", a...)
+}
+
+// cleanStaleTemp removes temp directories that an interrupted earlier run of this harness left behind (nothing under
+// /tmp is needed between runs).
+func cleanStaleTemp() {
+	for _, pat := range []string{"c18sds*", "c18sdso*", "c18file*", "c18out*", "c18oc*", "c18tls*"} {
+		m, _ := filepath.Glob(filepath.Join(os.TempDir(), pat))
+		for _, d := range m {
+			if fi, err := os.Stat(d); err == nil && time.Since(fi.ModTime()) > 20*time.Minute {
+				_ = os.RemoveAll(d)
+			}
+		}
+	}
+}
 
 func main() {
 	if len(os.Args) < 5 {
@@ -24,6 +61,11 @@ func main() {
 		os.Exit(2)
 	}
 	stream := os.Args[2]
+	cleanStaleTemp()
+	if os.Args[1] == "exec" && len(os.Args) >= 5 {
+		statsPath = os.Args[4] + ".stats"
+		_ = os.Remove(statsPath)
+	}
 	switch os.Args[1] {
 	case "gen":
 		seed, _ := strconv.ParseUint(os.Args[3], 10, 64)
